@@ -311,7 +311,7 @@ class C05(Check):
         return base_result(sim, violations,
                            summary={"submitted": len(submitted), "written": len(written), "trigger": trig,
                                     "stream_bytes": len(stream)},
-                           extra={"faults": faults, "submitters": len(scn["subs"])})
+                           extra={"abstract_states": sorted(w.abstract_states), "faults": faults, "submitters": len(scn["subs"])})
 
 
 CHECK = C05()
